@@ -126,6 +126,7 @@ structure Cfg where
   refreshAfterSample : Bool   -- the context cache is refreshed after `ts_now` is taken (repaired order)
   catchAllFormat : Bool
   reportBeforeFlushCleanup : Bool   -- the Flush path reports the failure counters before removing contexts (repaired)
+  flushInvalidatedLoggers : Bool := true   -- sinks of loggers marked for removal (not erased yet) are still flushed (repaired, F12)
   cleanupKeepsUnreported : Bool := true   -- the clean-up leaves a context whose failure counter is not reported yet (repaired, F24)
   deriving Repr
 
